@@ -103,9 +103,6 @@ struct SIMDVector<int64_t,simd_abi::avx512> {
             if (maska[i] == -1) {
                 a[Size - i - 1] = ((const scalar_value_type*)&value)[Size - i - 1];
             }
-            else {
-                a[Size - i - 1] = 0;
-            }
         }
         unused(Aligned);
 #endif
@@ -482,9 +479,6 @@ struct SIMDVector<int64_t,simd_abi::avx> {
             if (maska[i] == -1) {
                 a[Size - i - 1] = ((const scalar_value_type*)&value)[Size - i - 1];
             }
-            else {
-                a[Size - i - 1] = 0;
-            }
         }
         unused(Aligned);
 #endif
@@ -795,9 +789,6 @@ struct SIMDVector<int64_t,simd_abi::sse> {
         for (FASTOR_INDEX i=0; i<Size; ++i) {
             if (maska[i] == -1) {
                 a[Size - i - 1] = ((const scalar_value_type*)&value)[Size - i - 1];
-            }
-            else {
-                a[Size - i - 1] = 0;
             }
         }
         unused(Aligned);
